@@ -76,7 +76,7 @@ def fstring_depth(src):
     """deepest nesting of string literals inside replacement fields; whether a literal inside a field needs a backslash"""
     try:
         tree = ast.parse(src)
-    except SyntaxError:
+    except (SyntaxError, ValueError, RecursionError):
         return 0, False
     best, needs = 0, False
 
@@ -203,7 +203,10 @@ def run(chk, build, replay=None):
             chk.note_case(("runtime", rv, key))
             cls = None
             if st in ("text-syntax", "differs") and tuple(int(x) for x in rv.split(".")[:2]) < (3, 12):
-                depth, needs = fstring_depth(src)
+                # the literals that matter are those of the OUTPUT (the converter adds some: __ol_nonlocal_x['name'])
+                d1, n1 = fstring_depth(src)
+                d2, n2 = fstring_depth(text)
+                depth, needs = max(d1, d2), (n1 or n2)
                 if tr[0] == "ast.unparse" and tuple(int(x) for x in hv.split(".")[:2]) >= (3, 12) and depth >= 2:
                     cls = "K-astunparse-pep701-quotes"
                 elif depth >= 3:
